@@ -312,9 +312,67 @@ class SVEval:
                         outs.append((c, v[1], False, en))
                 return outs[:MAX_PATHS]
             return self.eval(e["expr"], o)
+        if k == "for":
+            r_ = self.eval_join_loop(e, o)
+            if r_ is not None:
+                return r_
         if k in ("binary", "cast", "index", "range", "struct", "array", "for", "while", "loop", "letcond"):
             return [([], ("opaque", expr_text(e)), False, env)]
         return [([], ("opaque", expr_text(e)), False, env)]
+
+    # ------------------------------------------------------------ join written as a loop
+    def eval_join_loop(self, e, o):
+        """`for (i, x) in xs.iter().enumerate() { if i > 0 { acc.push_str(SEP); } acc.push_str(&f(x)); }` appends the same text as
+        `xs.iter().map(f).collect::<Vec<_>>().join(SEP)`: the accumulator gains ("rep", f(x), SEP).  Anything else: None (opaque loop)."""
+        env = o.env
+        it = e["iter"]
+        pat = e["pat"]
+        idx = elem = None
+        if it.get("k") == "mcall" and it["method"] == "enumerate" and pat.get("k") == "tuple" and len(pat["elems"]) == 2:
+            b0, b1 = pat_bindings(pat["elems"][0]), pat_bindings(pat["elems"][1])
+            if len(b0) == 1 and len(b1) == 1:
+                idx, elem = b0[0], b1[0]
+            src_e = it["recv"]
+        else:
+            b = pat_bindings(pat)
+            if len(b) == 1:
+                elem = b[0]
+            src_e = it
+        if elem is None:
+            return None
+        src = self.first(src_e, o)
+        subject = src[1] if src and src[0] == "iter" else expr_text(src_e)
+        benv = dict(env)
+        benv[elem] = ("sub", subject + "[]") if (src and src[0] == "iter" and src[2]) else ("var", elem)
+        stmts = list(e["body"])
+        sep = ""
+        acc = None
+        if idx is not None and stmts and stmts[0].get("k") == "expr" and stmts[0]["e"].get("k") == "if" and stmts[0]["e"].get("else") is None:
+            c = stmts[0]["e"]["cond"]
+            ct = expr_text(c).replace(" ", "")
+            if ct in ("%s>0" % idx, "%s!=0" % idx, "0<%s" % idx, "%s>=1" % idx):
+                th = stmts[0]["e"]["then"]
+                if len(th) == 1 and th[0].get("k") == "expr" and th[0]["e"].get("k") == "mcall" and th[0]["e"]["method"] in ("push_str", "push") \
+                        and th[0]["e"]["args"] and lit_str(th[0]["e"]["args"][0]) is not None:
+                    sep = lit_str(th[0]["e"]["args"][0])
+                    acc = expr_text(th[0]["e"]["recv"])
+                    stmts = stmts[1:]
+                else:
+                    return None
+            else:
+                return None
+        if len(stmts) != 1 or stmts[0].get("k") != "expr" or stmts[0]["e"].get("k") != "mcall" or stmts[0]["e"]["method"] not in ("push_str", "push"):
+            return None
+        ps = stmts[0]["e"]
+        if acc is not None and expr_text(ps["recv"]) != acc:
+            return None
+        acc = expr_text(ps["recv"])
+        if acc not in env or not ps["args"]:
+            return None
+        bv = self.first(ps["args"][0], Outcome(o.conds, benv))
+        en2 = dict(env)
+        en2[acc] = cat([env[acc], ("rep", bv if bv is not None else ("opaque", "elem"), sep)])
+        return [([], None, False, en2)]
 
     # ------------------------------------------------------------ Option algebra
     OPT_COMBINATORS = ("and_then", "map", "cloned", "copied", "as_ref", "as_deref", "as_mut", "or_else", "filter", "get", "ok")
@@ -872,3 +930,26 @@ def select_path(paths, asg):
             continue
         return conds, sv, all(v is True for v in vals)
     return None
+
+
+def atom_polarity(cond, atom_re):
+    """is the boolean atom matching atom_re asserted true or false by this condition text?  `not(..)` wrappers, a leading `!` and the
+    "callee: " prefixes of inlined methods are peeled off.  -> True / False / None (the condition is about something else)"""
+    c = cond.strip()
+    c = re.sub(r"^(\w+: )+", "", c)
+    pol = True
+    changed = True
+    while changed:
+        changed = False
+        if c.startswith("not(") and c.endswith(")"):
+            c = c[4:-1].strip()
+            pol = not pol
+            changed = True
+        elif c.startswith("!"):
+            c = c[1:].strip()
+            pol = not pol
+            changed = True
+        elif c.startswith("(") and c.endswith(")"):
+            c = c[1:-1].strip()
+            changed = True
+    return pol if re.fullmatch(atom_re, c) else None
